@@ -661,7 +661,11 @@ class Tuner:
 
             if status == Status.failed:
                 logger.info(f"Trial trial_id {trial_id} failed.")
-                self.scheduler.on_trial_error(trial)
+                # If the scheduler already stopped or paused the trial for a
+                # result of this very batch, it has been told about the end
+                # of this run (``on_trial_remove``) and must not be told twice
+                if trial_id not in done_trials:
+                    self.scheduler.on_trial_error(trial)
                 done_trials[trial_id] = (trial, status)
 
             # For the case when the trial is stopped independently of the scheduler, we choose to use
